@@ -42,6 +42,7 @@ type retInfo struct {
 	pc    *Term
 	state *State
 	vals  []Value
+	pos   string
 }
 
 type edgeInfo struct {
@@ -70,6 +71,7 @@ type Frame struct {
 	inDefer  bool
 	autoInv  map[*ssa.BasicBlock][]autoInv
 	atCount  map[string]int
+	cbOnce   bool
 }
 
 type autoInv struct {
@@ -296,7 +298,10 @@ func (fr *Frame) execBlock(b *ssa.BasicBlock, pc *Term, st *State) {
 			for i, r := range v.Results {
 				vals[i] = fr.val(r)
 			}
-			fr.rets = append(fr.rets, retInfo{pc: pc, state: st, vals: vals})
+			fr.rets = append(fr.rets, retInfo{pc: pc, state: st, vals: vals, pos: x.W.pos(v.Pos())})
+			if fr.isRoot {
+				x.rootRets = append(x.rootRets, retPoint{pc: pc, pos: x.W.pos(v.Pos()), tpos: v.Pos()})
+			}
 			return
 		case *ssa.Panic:
 			if x.mode.Sweep && !fr.inDefer && v.Pos().IsValid() {
@@ -450,9 +455,7 @@ func (fr *Frame) execInstr(in ssa.Instruction, pc *Term, st *State) *Term {
 		idx := fr.val(v.Index).One()
 		switch u := v.X.Type().Underlying().(type) {
 		case *types.Array:
-			if x.mode.Sweep {
-				x.oblige("index", describe(v.X), pos, pc, B.And(B.Le(B.Int(0), idx), B.Lt(idx, B.Int(u.Len()))))
-			}
+			x.runtimeCheck("index", describe(v.X), pos, pc, B.And(B.Le(B.Int(0), idx), B.Lt(idx, B.Int(u.Len()))))
 			if LayoutOf(v.X.Type()).Leaves[0].Role == "array" {
 				r := B.Select(xv.One(), idx)
 				val := Value{T: v.Type(), L: []*Term{r}}
@@ -463,9 +466,7 @@ func (fr *Frame) execInstr(in ssa.Instruction, pc *Term, st *State) *Term {
 			}
 		case *types.Basic: // string
 			ln := x.strLen(xv.One())
-			if x.mode.Sweep {
-				x.oblige("index", describe(v.X), pos, pc, B.And(B.Le(B.Int(0), idx), B.Lt(idx, ln)))
-			}
+			x.runtimeCheck("index", describe(v.X), pos, pc, B.And(B.Le(B.Int(0), idx), B.Lt(idx, ln)))
 			fr.vals[v] = Value{T: v.Type(), L: []*Term{x.strAt(xv.One(), idx)}}
 		default:
 			fr.vals[v] = x.freshValue(v.Type(), "idx")
@@ -623,26 +624,30 @@ func describeInstr(v ssa.Value) string {
 func (fr *Frame) distinctFromLive(r *Term) {
 	x := fr.x
 	seen := map[int]bool{}
+	var live []*Term
 	for sv, v := range fr.vals {
 		if len(v.L) == 0 {
 			continue
 		}
+		var t *Term
 		switch sv.Type().Underlying().(type) {
 		case *types.Slice, *types.Pointer, *types.Map, *types.Chan:
-			t := v.L[0]
-			if t == r || t.Op == "int" || seen[t.id] || x.isFresh[t] {
-				continue
-			}
-			seen[t.id] = true
-			x.assumeGlobal(x.B.Neq(t, r), "fresh allocation differs from existing objects")
+			t = v.L[0]
 		case *types.Interface:
-			t := v.L[1]
-			if t == r || t.Op == "int" || seen[t.id] || x.isFresh[t] {
-				continue
-			}
-			seen[t.id] = true
-			x.assumeGlobal(x.B.Neq(t, r), "fresh allocation differs from existing objects")
+			t = v.L[1]
+		default:
+			continue
 		}
+		if t == r || t.Op == "int" || seen[t.id] || x.isFresh[t] {
+			continue
+		}
+		seen[t.id] = true
+		live = append(live, t)
+	}
+	sort.Slice(live, func(a, b int) bool { return live[a].id < live[b].id })
+	for _, t := range live {
+		// (a "fresh" result of a contract may be nil on its error path)
+		x.assumeGlobal(x.B.Or(x.B.Eq(r, x.B.Int(0)), x.B.Neq(t, r)), "fresh allocation differs from existing objects")
 	}
 }
 
@@ -787,9 +792,7 @@ func (fr *Frame) intBinop(v *ssa.BinOp, a, b *Term, pc *Term, pos string) *Term 
 	case token.MUL:
 		return fr.arith(B.Mul(a, b), bits, signed, pc, pos, v)
 	case token.QUO, token.REM:
-		if x.mode.Sweep {
-			x.oblige("divzero", describe(v.Y), pos, pc, B.Neq(b, B.Int(0)))
-		}
+		x.runtimeCheck("divzero", describe(v.Y), pos, pc, B.Neq(b, B.Int(0)))
 		// Go truncated division
 		q, r := x.truncDivMod(a, b)
 		if v.Op == token.QUO {
@@ -854,6 +857,15 @@ func (fr *Frame) arith(r *Term, bits uint, signed bool, pc *Term, pos string, v 
 		x.assume(pc, in, "no overflow (proved as an obligation)")
 	}
 	return r
+}
+
+// runtimeCheck: a check the Go runtime performs (bounds, division by zero). In sweep
+// mode it is an obligation; in every mode execution continues only if it held.
+func (x *X) runtimeCheck(kind, detail, pos string, pc, cond *Term) {
+	if x.mode.Sweep {
+		x.oblige(kind, detail, pos, pc, cond)
+	}
+	x.assume(pc, cond, "the run-time "+kind+" check passed (execution continued)")
 }
 
 func (x *X) truncDivMod(a, b *Term) (*Term, *Term) {
@@ -1024,16 +1036,12 @@ func (fr *Frame) indexAddr(v *ssa.IndexAddr, pc *Term, st *State, pos string) Va
 	switch u := v.X.Type().Underlying().(type) {
 	case *types.Slice:
 		ln := xv.L[2]
-		if x.mode.Sweep {
-			x.oblige("index", describe(v.X), pos, pc, B.And(B.Le(B.Int(0), idx), B.Lt(idx, ln)))
-		}
-		l := &Loc{Kind: LElem, Ref: xv.L[0], Idx: B.Add(xv.L[1], idx), T: u.Elem()}
+		x.runtimeCheck("index", describe(v.X), pos, pc, B.And(B.Le(B.Int(0), idx), B.Lt(idx, ln)))
+		l := &Loc{Kind: LElem, Ref: xv.L[0], Idx: B.Index(xv.L[1], idx), T: u.Elem()}
 		return Value{T: v.Type(), L: []*Term{x.ptrOf(l)}}
 	case *types.Pointer:
 		arr := u.Elem().Underlying().(*types.Array)
-		if x.mode.Sweep {
-			x.oblige("index", describe(v.X), pos, pc, B.And(B.Le(B.Int(0), idx), B.Lt(idx, B.Int(arr.Len()))))
-		}
+		x.runtimeCheck("index", describe(v.X), pos, pc, B.And(B.Le(B.Int(0), idx), B.Lt(idx, B.Int(arr.Len()))))
 		key := x.arrayKey(xv.One(), u.Elem())
 		l := &Loc{Kind: LElem, Ref: key, Idx: idx, T: arr.Elem()}
 		return Value{T: v.Type(), L: []*Term{x.ptrOf(l)}}
@@ -1083,12 +1091,12 @@ func (fr *Frame) sliceOp(v *ssa.Slice, pc *Term, st *State, pos string) Value {
 		if max != nil {
 			lim = max
 		}
-		if x.mode.Sweep {
+		{
 			cond := B.And(B.Le(B.Int(0), low), B.Le(low, high), B.Le(high, lim))
 			if max != nil {
 				cond = B.And(cond, B.Le(max, cp))
 			}
-			x.oblige("slice", describe(v.X), pos, pc, cond)
+			x.runtimeCheck("slice", describe(v.X), pos, pc, cond)
 		}
 		return Value{T: v.Type(), L: []*Term{base, B.Add(off, low), B.Sub(high, low), B.Sub(lim, low)}}
 	case *types.Basic: // string
@@ -1098,9 +1106,7 @@ func (fr *Frame) sliceOp(v *ssa.Slice, pc *Term, st *State, pos string) Value {
 		if high == nil {
 			high = ln
 		}
-		if x.mode.Sweep {
-			x.oblige("slice", describe(v.X), pos, pc, B.And(B.Le(B.Int(0), low), B.Le(low, high), B.Le(high, ln)))
-		}
+		x.runtimeCheck("slice", describe(v.X), pos, pc, B.And(B.Le(B.Int(0), low), B.Le(low, high), B.Le(high, ln)))
 		return Value{T: v.Type(), L: []*Term{x.subStr(s, low, high)}}
 	case *types.Pointer:
 		arr := u.Elem().Underlying().(*types.Array)
@@ -1112,9 +1118,7 @@ func (fr *Frame) sliceOp(v *ssa.Slice, pc *Term, st *State, pos string) Value {
 		if max != nil {
 			lim = max
 		}
-		if x.mode.Sweep {
-			x.oblige("slice", describe(v.X), pos, pc, B.And(B.Le(B.Int(0), low), B.Le(low, high), B.Le(high, lim), B.Le(lim, n)))
-		}
+		x.runtimeCheck("slice", describe(v.X), pos, pc, B.And(B.Le(B.Int(0), low), B.Le(low, high), B.Le(high, lim), B.Le(lim, n)))
 		key := x.arrayKey(xv.One(), u.Elem())
 		return Value{T: v.Type(), L: []*Term{key, low, B.Sub(high, low), B.Sub(lim, low)}}
 	}
@@ -1314,9 +1318,7 @@ func (fr *Frame) lookup(v *ssa.Lookup, pc *Term, st *State, pos string) Value {
 	xv := fr.val(v.X)
 	if bt, ok := v.X.Type().Underlying().(*types.Basic); ok && bt.Info()&types.IsString != 0 {
 		idx := fr.val(v.Index).One()
-		if x.mode.Sweep {
-			x.oblige("index", describe(v.X), pos, pc, B.And(B.Le(B.Int(0), idx), B.Lt(idx, x.strLen(xv.One()))))
-		}
+		x.runtimeCheck("index", describe(v.X), pos, pc, B.And(B.Le(B.Int(0), idx), B.Lt(idx, x.strLen(xv.One()))))
 		return Value{T: v.Type(), L: []*Term{x.strAt(xv.One(), idx)}}
 	}
 	name, ks, m := x.mapHeapNames(v.X.Type())
@@ -1451,7 +1453,7 @@ func (fr *Frame) cutLoop(lp *Loop, pc *Term, st *State) (*Term, *State) {
 			x.havocNames(st, names)
 		}
 	}
-	for id := range ms.cells {
+	for _, id := range sortedCellIDs(ms.cells) {
 		if old, ok := st.cells[id]; ok {
 			st.cells[id] = x.freshValue(old.T, "loopcell")
 		}
